@@ -530,11 +530,14 @@ func genWKT(t *rapid.T, name string) []byte {
 const envRaceChild = "VERIF_C11_CHILD"
 
 func TestC11Race(t *testing.T) {
-	if os.Getenv(envRaceChild) != "" {
+	if v := os.Getenv(envRaceChild); strings.HasPrefix(v, "first:") {
+		c11FirstUseChild(t, v)
+		return
+	} else if v != "" {
 		c11RaceChild(t)
 		return
 	}
-	rec := ev.New("C11", "schedule clause: the -race test binary re-executes itself R times (fresh process => empty classification cache); in each process G in {8,32,64} goroutines released by a barrier call MsgType on every corpus type for the first time; every goroutine must see the class of the runtime the type was generated for; any race report fails the round")
+	rec := ev.New("C11", "schedule clause: the -race test binary re-executes itself R times (fresh process => empty classification cache); in each process G in {8,32,64} goroutines released by a barrier call MsgType on every corpus type for the first time; every goroutine must see the class of the runtime the type was generated for; any race report fails the round; first-use order clause: R' further fresh processes in which each corpus type's FIRST use is one of 11 entry-point calls (MsgType / Equal / Clone / Size / Marshal / MarshalText / JSONMarshaler / ClearAllExtensions / Unmarshal on a typed nil pointer, MsgType / Equal on a message), rotated so that every (type, first use) pair occurs; afterwards MsgType of a fresh message is the generating runtime's class, Clone is non-nil and Equal(empty, empty) holds")
 	defer rec.Write()
 	defer func() { t.Log(rec.Summary()) }()
 	rec.Extra("race_detector", raceEnabled)
@@ -551,6 +554,100 @@ func TestC11Race(t *testing.T) {
 		rec.Sample(fmt.Sprintf("g=%d", g), c)
 		rec.Check(t, "raceround", c, f)
 	}
+	// first-use order: what the FIRST call involving a type was (which entry point, nil pointer or message)
+	// must not influence how the type is classified afterwards.  One fresh process per round; in round k type
+	// i gets first-use op (i+k) mod len(firstUseOps), so len(firstUseOps) rounds enumerate every (type, op) pair.
+	nTypes := len(shimTypes())
+	for k := 0; k < ev.N(len(firstUseOps), 4*len(firstUseOps)); k++ {
+		f := firstUseRoundOnce(k)
+		rec.Eval(int64(nTypes))
+		rec.NonTrivialEnum(int64(nTypes))
+		rec.Class("first-use-order-round")
+		c := map[string]any{"k": k}
+		rec.Sample("first-use", map[string]any{"k": k, "types": nTypes, "ops": firstUseNames()})
+		rec.Check(t, "firstuse", c, f)
+	}
+}
+
+type firstUseOp struct {
+	name string
+	run  func(nilPtr, msg any)
+}
+
+var firstUseOps = []firstUseOp{
+	{"MsgType(nil pointer)", func(n, m any) { csproto.MsgType(n) }},
+	{"Equal(nil pointer, nil pointer)", func(n, m any) { csproto.Equal(n, n) }},
+	{"Clone(nil pointer)", func(n, m any) { csproto.Clone(n) }},
+	{"Size(nil pointer)", func(n, m any) { csproto.Size(n) }},
+	{"Marshal(nil pointer)", func(n, m any) { _, _ = csproto.Marshal(n) }},
+	{"MarshalText(nil pointer)", func(n, m any) { _, _ = csproto.MarshalText(n) }},
+	{"MsgType(message)", func(n, m any) { csproto.MsgType(m) }},
+	{"Equal(message, nil pointer)", func(n, m any) { csproto.Equal(m, n) }},
+	{"JSONMarshaler(nil pointer)", func(n, m any) { _, _ = csproto.JSONMarshaler(n).MarshalJSON() }},
+	{"ClearAllExtensions(nil pointer)", func(n, m any) { csproto.ClearAllExtensions(n) }},
+	{"Unmarshal(into nil pointer)", func(n, m any) { _ = csproto.Unmarshal([]byte{}, n) }},
+}
+
+func firstUseNames() []string {
+	var out []string
+	for _, o := range firstUseOps {
+		out = append(out, o.name)
+	}
+	return out
+}
+
+func firstUseRoundOnce(k int) *ev.Failure {
+	cmd := exec.Command(os.Args[0], "-test.run", "^TestC11Race$", "-test.count=1")
+	cmd.Env = append(os.Environ(), fmt.Sprintf("%s=first:%d", envRaceChild, k), "VERIF_EVIDENCE_PART=", "VERIF_REPLAY=")
+	out, err := cmd.CombinedOutput()
+	if bytes.Contains(out, []byte("C11-CHILD-FAIL")) {
+		ln := regexpFind(out, "")
+		op := "?"
+		if i := strings.Index(ln, "first use = "); i >= 0 {
+			op = strings.SplitN(ln[i+len("first use = "):], ";", 2)[0]
+		}
+		return ev.Failf("C11/classification-depends-on-first-use/"+op, "%s", ln)
+	}
+	if err != nil || !bytes.Contains(out, []byte("C11-CHILD-OK")) {
+		panic(fmt.Sprintf("harness: re-executed child neither passed nor reported a wrong classification: %v\n%.800s", err, out))
+	}
+	return nil
+}
+
+func c11FirstUseChild(t *testing.T, spec string) {
+	var k int
+	fmt.Sscanf(spec, "first:%d", &k)
+	bad := ""
+	for i, mt := range shimTypes() {
+		op := firstUseOps[(i+k)%len(firstUseOps)]
+		msg := mt.New()
+		nilPtr := reflect.Zero(reflect.TypeOf(msg)).Interface()
+		func() {
+			defer func() { _ = recover() }() // what the call on a nil pointer does is not the subject here
+			op.run(nilPtr, msg)
+		}()
+		want := runtimes[mt.Info.Runtime].class
+		fresh := mt.New()
+		if got := csproto.MsgType(fresh); got != want {
+			bad = fmt.Sprintf("first use = %s; afterwards MsgType(%T) = %v, want %v", op.name, fresh, got, want)
+			break
+		}
+		var cl any
+		func() {
+			defer func() { _ = recover() }()
+			cl = csproto.Clone(fresh)
+		}()
+		if cl == nil || !csproto.Equal(fresh, mt.New()) {
+			bad = fmt.Sprintf("first use = %s; afterwards Clone(%T) = %v, Equal(empty, empty) = %v", op.name, fresh, cl, csproto.Equal(fresh, mt.New()))
+			break
+		}
+	}
+	if bad != "" {
+		fmt.Println("C11-CHILD-FAIL " + bad)
+		t.Fail()
+		return
+	}
+	fmt.Println("C11-CHILD-OK")
 }
 
 // raceRoundOnce re-executes the test binary (fresh process => empty classification cache) and lets g
@@ -650,6 +747,12 @@ func replayShim(rp *ev.Replay) *ev.Failure {
 			}
 		}
 		return nil
+	case "firstuse":
+		var c struct{ K int }
+		if err := json.Unmarshal(rp.Case, &c); err != nil {
+			return ev.Failf("C11/replay", "bad case: %v", err)
+		}
+		return firstUseRoundOnce(c.K)
 	case "ucase":
 		var c UCase
 		if err := json.Unmarshal(rp.Case, &c); err != nil {
